@@ -3,7 +3,7 @@ package bind
 
 // C19 (redaction helpers only): the printed form of a secret-bearing value does not depend on the secret.
 //
-//vf:assume C19: non-interference is decided by self-composition: two values that differ only in the password (symbolic, 1..3 bytes each, any bytes incl. ':' '@' '%') must print identically, and the non-secret parts (user, host, port) stay visible; user names are symbolic 1..2 printable bytes for Userinfo/HostPortUser and from a pool for URLs
+//vf:assume C19: non-interference is decided by self-composition: two values that differ only in the password (symbolic, 1..3 bytes each in the quick tier, 1..6 in the thorough tier, any bytes incl. ':' '@' '%') must print identically, and the non-secret parts (user, host, port) stay visible; user names are symbolic 1..2 printable bytes for Userinfo/HostPortUser and from a pool for URLs
 //vf:assume C19: only the redacting helpers registered for the secret-bearing flags are decided; the real binary's log/configz output, viper/cobra plumbing and error responses are outside
 
 import (
@@ -15,7 +15,11 @@ import (
 )
 
 func vfSecret(label string) string {
-	return vfrt.String(label, 1+vfrt.Choice(label+"-len", 3))
+	max := 3
+	if vfrt.Thorough() {
+		max = 6
+	}
+	return vfrt.String(label, 1+vfrt.Choice(label+"-len", max))
 }
 
 func vfUser(label string) string {
